@@ -95,6 +95,7 @@ SPEC_MUTANTS = [
     ("pad-order", "FastQR.tla", "IF (k - have) % 2 = 1 THEN 236 ELSE 17", "IF (k - have) % 2 = 1 THEN 17 ELSE 236", "MC_Pipeline.tla", "MC_Pipeline_quick.cfg", "StagedEqualsClosedForm|DataCodewordsISOInv"),
     ("argmin-reversed", "FastQR.tla", "better == j.bestScore < 0 \\/ p < j.bestScore", "better == j.bestScore < 0 \\/ p > j.bestScore", "MC_Pipeline.tla", "MC_Pipeline_quick.cfg", "MaskMinimalInv"),
     ("forced-mask-ignored", "FastQR.tla", "mask |-> IF j.b.mask >= 0 THEN j.b.mask ELSE j.best]", "mask |-> j.best]", "MC_Pipeline.tla", "MC_Pipeline_quick.cfg", "MaskMinimalInv|FormatVersionTruthInv"),
+    ("score-loop-stuck", "FastQR.tla", "[j EXCEPT !.next = j.next + 1, !.cands = Append(j.cands, p),", "[j EXCEPT !.next = j.next, !.cands = Append(j.cands, p),", "MC_Pipeline.tla", "MC_Pipeline_cov.cfg", "Progress"),
     ("default-level-M", "QRProps.tla", 'WantLevel(b) == IF b.ecl = "none" THEN "Q" ELSE b.ecl', 'WantLevel(b) == IF b.ecl = "none" THEN "M" ELSE b.ecl', "MC_Lemmas.tla", None, None),
     ("ec-shifted", "FastQR.tla", "eblk |-> [bk \\in 1..nb |-> RSRemainder(dblk[bk], ec)]", "eblk |-> [bk \\in 1..nb |-> RSRemainder(Tail(dblk[bk]) \\o <<0>>, ec)]", "MC_Pipeline.tla", "MC_Pipeline_quick.cfg", "BlocksValidInv|ECIsRemainderInv"),
     ("format-copy2-shift", "FastQR.tla", "![Idx(n, FormatPos2(n, bt)[1], FormatPos2(n, bt)[2])] = Bit(w, bt)]", "![Idx(n, FormatPos2(n, bt)[1], FormatPos2(n, bt)[2])] = Bit(w, (bt + 1) % 15)]", "MC_Pipeline.tla", "MC_Pipeline_quick.cfg", "FormatVersionTruthInv"),
@@ -122,8 +123,8 @@ def spec_mutants(wd):
         open(p, "w").write(s.replace(old, new, 1))
         rc, out = runner.sh(["tlc", "-workers", "8", "-metadir", os.path.join(d, "meta"), "-cleanup", "-noGenerateSpecTE", "-config", cfg, mod], 1200,
                             env={"JAVA_TOOL_OPTIONS": runner.JAVA_OPTS + " -Xmx6g"}, cwd=d)
-        m = re.search(r"Invariant (\w+) is violated|property (\w+) |Deadlock reached", out)
-        got = (m.group(1) or m.group(2) or "deadlock") if m else ""
+        m = re.search(r"Invariant (\w+) is violated|Action property (\w+) is violated|property (\w+) |Deadlock reached", out)
+        got = (m.group(1) or m.group(2) or m.group(3) or "deadlock") if m else ""
         if m and "Deadlock" in m.group(0):
             got = "deadlock"
         ok = bool(m) and bool(re.search(inv, got or ""))
